@@ -132,7 +132,9 @@ theorem partitionM_specG (nk nth ihmax : Nat) (spec : Array Int) (iqFill : Int)
     (hk : 1 ≤ nk) (ht : 1 ≤ nth) (hi : 1 ≤ ihmax) (hs : spec.size = nk * nth) :
     ⦃fun o => ⌜o = false⌝⦄ partitionM nk nth ihmax (Neigh.table nk nth) spec iqFill true
     ⦃⇓ r o => ⌜o = false ∧ (r.const = false →
-      ∃ s, run (graphOf nk nth (rows nk nth) r.imi) r.trace.toList = some s)⌝⦄ := by
+      ∃ s, run (graphOf nk nth (rows nk nth) r.imi) r.trace.toList = some s ∧
+        (s.phase = .idle ∨ s.phase = .sweeping) ∧
+        ∀ p, p < nk * nth → (graphOf nk nth (rows nk nth) r.imi).level p < s.h)⌝⦄ := by
   have hnb := table_ok nk nth
   have hpos : 1 ≤ nk * nth := Nat.mul_pos hk ht
   have s1 := @ptsort_spec ihmax (nk * nth)
@@ -173,7 +175,7 @@ theorem partitionM_specG (nk nth ihmax : Nat) (spec : Array Int) (iqFill : Int)
     omega
   case vc43 =>
     grab hG : G2i
-    obtain ⟨s, hrun, -⟩ := hG
-    exact ⟨rfl, s, hrun⟩
+    obtain ⟨s, hrun, hR⟩ := hG
+    exact ⟨rfl, s, hrun, hR.ph, hR.hh⟩
 
 end WS.Fld
